@@ -239,6 +239,13 @@ SUITES["feat333"]["seeds"] = "SeedsSeg333"
 # not used for exploration
 SUITES["feat333"]["fire_kinds"] = [2, 3, 4, 9, 10]
 SUITES["feat3d"]["fire_kinds"] = [2, 3, 4, 9, 10]
+# feat333 states whose object is CONSTRUCTED anew before the alphabet is fired: every shape value comes from the bulk
+# computation (all labels in the frame), every undo / redo from the incremental one (one label)
+import copy as _copy  # noqa: E402
+SUITES["feat333z"] = _copy.deepcopy(SUITES["feat333"])
+SUITES["feat333z"]["cfg"]["name"] = "feat333z"
+SUITES["feat333z"]["cfg"]["rebuild"] = {"mode": 0}
+SUITES["feat333z"].pop("fire_kinds", None)
 SUITES["feat333"]["design_depth"] = {"quick": -1, "thorough": -1}
 
 # states in which a feature is registered and active but STALE (disable, edit, enable without recomputation):
